@@ -223,7 +223,7 @@ def run_check(engine_factory, property_id, tier, base_seed, n_workers=None, scal
     step = max(1, len(jobs) // n_det)
     det_idx = list(range(0, len(jobs), step))[:n_det]
     det_jobs = [(jobs[i][0], jobs[i][1], jobs[i][2], False) for i in det_idx]
-    pass_b = digests_for(engine_factory, known_keys, det_jobs, max(2, n_workers // 3))
+    pass_b = digests_for(engine_factory, known_keys, det_jobs, max(2, (2 * n_workers) // 3))
     fresh_n = max(4, len(det_idx) // 4)
     pass_c = fresh_interpreter_digests(property_id, tier, base_seed, det_idx[:fresh_n], hashseed=4242, scale=scale)
     mismatches = []
@@ -235,7 +235,7 @@ def run_check(engine_factory, property_id, tier, base_seed, n_workers=None, scal
             mismatches.append((i, "fresh interpreter / other PYTHONHASHSEED"))
     det = {
         "seeds_run_twice": len(det_idx),
-        "worker_counts": [n_workers, max(2, n_workers // 3)],
+        "worker_counts": [n_workers, max(2, (2 * n_workers) // 3)],
         "fresh_interpreter_seeds": len(pass_c),
         "other_pythonhashseed": 4242,
         "mismatches": len(mismatches),
